@@ -307,6 +307,9 @@ def wl_coherent(ctx, idx, rng):
     per_dm = 4149.377593360996e12 * abs((fchz - bw / 2) ** -2 - (fchz + bw / 2) ** -2) * srhz + 1e-300
     r = rng.random()
     target = rng.uniform(0.2, N * 0.6) if r < 0.85 else rng.uniform(N * 0.6, N * 1.5)
+    if gen._side_rng(rng).random() < 0.06:
+        # a tiny DM (a residual correction): the whole delay is a small fraction of a sample, which still costs one sample per side
+        target = float(10.0 ** gen._side_rng(rng).uniform(-7.5, -2))
     dmval = float(target / per_dm) * gen.pick(rng, [1, 1, -1])
     dm = make_dm(rng, dmval)
     ref = [None, sig.min_freq, sig.max_freq, sig.center_freq + sig.chan_bw * float(rng.uniform(-nchan / 2, nchan / 2)),
@@ -333,6 +336,18 @@ def wl_coherent(ctx, idx, rng):
         return
     if ctx.counters["coherent_events"] == before:
         ctx.inconclusive_because("coherent_dedispersion probe did not fire")
+    if use_dask and len(out) and isinstance(out.data, da.Array):
+        # a lazy result belongs to the DM it was requested with: the caller reuses (changes in place) its DM object before computing
+        with probes.quiet():
+            y_first = gen.np_data(out)
+            dm_keep = dm.copy()
+            dm *= 3.0
+            y_late = gen.np_data(out)
+            dm = dm_keep
+        ctx.count("oracle[lazy_result_bound_to_call_time_dm]")
+        if y_first.shape != y_late.shape or not np.array_equal(y_first, y_late, equal_nan=True):
+            ctx.violation("coherent", "a lazy coherent_dedispersion result changed when the caller modified its DM object in place before computing",
+                          None, {"what": "late_binding", "dask": True})
     if len(out):
         ctx.bucket(N, nchan, align, rk, dmval > 0, np.dtype(dtype).name, "dask" if use_dask else "np")
     sub = idx % 3
